@@ -860,6 +860,7 @@ def eval_steps(ctx: Ctx, c: dict):
         for i, rr in enumerate(m.sections[sec]):
             if stop:
                 break
+            snap_add = (r.output.getvalue(), dict(r.compress), list(r.counts))
             try:
                 if sec == 0:
                     if qdef and rr.rdclass == 1:
@@ -879,6 +880,12 @@ def eval_steps(ctx: Ctx, c: dict):
                 tr.append("err:NeedAbsoluteNameOrOrigin")
                 ctx.count("steps.need-absolute")
                 stop = True
+                now = (r.output.getvalue(), dict(r.compress), list(r.counts))
+                if now != snap_add:
+                    # (repaired in 2e4231d: _track_size rolls back on any exception, not only TooBig)
+                    fail(ctx, "C03/renderer/partial-record-after-exception",
+                         f"an add that raised NeedAbsoluteNameOrOrigin left {len(now[0]) - len(snap_add[0])} octets and "
+                         f"{len(now[1]) - len(snap_add[1])} compression entries of the unfinished record behind", c)
     ck = dict(c, sections=kept)
     if c["opt"] is not None and edns is not None:
         o = c["opt"]
@@ -1589,6 +1596,12 @@ def gen_rollback(rng, variant):
         c["sections"][3].append(rr(hexl([b"relative"]), 1, [raw(4)]))
         if rng.chance(2, 3):
             c["ctor"], c["max_size"] = "defaults", 65535
+    elif origin is None and rng.chance(1, 10):
+        # … or a relative name inside the RDATA, after the owner (and possibly a first record) has been written
+        rds = [{"k": "n", "n": nm(b"ns1", *B)}, {"k": "n", "n": hexl([b"relative-target"])}][rng.below(2):]
+        c["sections"][rng.choice([1, 2, 3])].insert(0, rr(nm(b"ok", *B), 2, rds))
+        if rng.chance(1, 2):
+            c["max_size"] = 65535
     return c
 
 
